@@ -62,7 +62,7 @@ RULE_SCHED = ("each run is one seeded schedule+workload drawn from the choice ta
 
 CHECKS = {
     "C20": {
-        "claim": "history and writer-fault simulation of text.Encoder: a long-lived encoder renders tape-generated values of the aircraftlib schema (all numeric kinds, text and data with quotes, backslashes, control and high bytes, enums in and out of range, unions, groups, nested lists, defaults) for up to 10^5 consecutive calls and must give byte-identical output to a fresh encoder at every step; each rendering is parsed by an independent parser for the text format and every recovered field must equal what was set through the generated accessors; a failing Write must surface as an error and leave only a prefix of the rendering",
+        "claim": "history and writer-fault simulation of text.Encoder: a long-lived encoder renders tape-generated values of the aircraftlib schema (all numeric kinds, text and data with quotes, backslashes, control and high bytes, enums in and out of range, unions, groups, nested lists, defaults) for up to 10^5 consecutive calls and must give byte-identical output to a fresh encoder at every step; each rendering is parsed by an independent parser for the text format and every recovered field must equal what was set through the generated accessors; a failing Write must surface as an error and leave only a prefix of the rendering; the history also switches the encoder between registries (the default one set explicitly, a copy of the compiled-in schema, a second schema version in which every field and enumerant name is renamed) and the names shown must come from the registry in force",
         "engine": "textsim", "level": "exploration",
         "budget": {"quick": 25, "thorough": 600},
         "min_runs": {"quick": 80000},
@@ -79,7 +79,7 @@ CHECKS = {
         "params": {"mode": "hostile"},
     },
     "C09": {
-        "claim": "two-stage per-operation fault sweep made possible by deterministic replay: each scenario (a seed of the C06/C07 workload) is first run fault-free to count its transport operations and steps, then re-run once for every NewMessage / send / receive index with each fault kind (error on NewMessage, error on send, stalled send, receive error, EOF) and, at up to 60 evenly spaced steps, with Close, Close twice followed by new operations, and cancellation of every outstanding call; every run must finish all its operations, Close must return, no goroutine started by the connection may survive, no mutex nor the sender lock may stay held, nothing may panic; the stream topology covers both NewStreamTransport and NewPackedStreamTransport (torn-write rule evaluated on the unpacked stream)",
+        "claim": "two-stage per-operation fault sweep made possible by deterministic replay: each scenario (a seed of the C06/C07 workload) is first run fault-free to count its transport operations and steps, then re-run once for every NewMessage / send / receive index with each fault kind (error on NewMessage, error on send, stalled send, receive error, EOF) and, at up to 60 evenly spaced steps, with Close, Close twice followed by new operations, and cancellation of every outstanding call; every run must finish all its operations, Close must return, no goroutine started by the connection may survive, no mutex nor the sender lock may stay held, nothing may panic; the stream topology covers both NewStreamTransport and NewPackedStreamTransport (torn-write rule evaluated on the unpacked stream), over a stream without deadline support (leaky-read path) and over one with working SetReadDeadline/SetWriteDeadline (reads interrupted through the deadline; fault write_stall: the peer stops reading in the middle of a write, which only the write deadline, Close or the partial-write timeout ends); the model peer echoes Disembargo as a move of its own, so Close also meets embargoes that are still up with calls queued behind them",
         "engine": "rpcsim", "level": "fault_enumeration",
         "budget": {"quick": 40, "thorough": 1200},
         "min_runs": {"quick": 60},
@@ -90,7 +90,7 @@ CHECKS = {
         "coverage_extra": {"explanation": "exhaustive is per scenario: all transport operation indices of the fault-free run are swept (probes.sweep_cases / sweep_scenarios); scenarios themselves are sampled"},
     },
     "C07": {
-        "claim": "same simulated sessions as C06 biased to capability traffic (the same capability sent repeatedly, partial Releases, Finish with releaseResultCaps before or after the Return, Returns with releaseParamCaps, local AddRef/Release of imports racing with newly arriving references); conservation is checked from the wire history: peer reference counts never go negative, a Release never exceeds the references actually delivered, application capabilities are not released while the peer holds a reference and the connection is open, after an orderly wind-down every table is empty and every capability released, and after Close each capability has been released exactly once; in the two-Conn topology: no application capability shut down while a caller holds a handle designating it, both Conns' question/answer/export/import/embargo tables empty once every handle is released and every call finished, every capability shut down exactly once",
+        "claim": "same simulated sessions as C06 biased to capability traffic (the same capability sent repeatedly, partial Releases, Finish with releaseResultCaps before or after the Return, Returns with releaseParamCaps, local AddRef/Release of imports racing with newly arriving references); conservation is checked from the wire history: peer reference counts never go negative, a Release never exceeds the references actually delivered, application capabilities are not released while the peer holds a reference and the connection is open, after an orderly wind-down every table is empty and every capability released, and after Close each capability has been released exactly once; in the two-Conn topology: no application capability shut down while a caller holds a handle designating it, both Conns' question/answer/export/import/embargo tables empty once every handle is released and every call finished, every capability shut down exactly once; payloads may name one capability in two capability-table entries (parameters and results), given back in bulk by releaseParamCaps / releaseResultCaps",
         "engine": "rpcsim", "level": "exploration",
         "budget": {"quick": 30, "thorough": 900},
         "min_runs": {"quick": 12000},
@@ -116,7 +116,7 @@ CHECKS = {
         "faults": ["bitflip", "word_smash", "tag_smash", "truncate_segment", "segment_drop", "segment_dup", "segment_swap", "segtable_tamper", "arena_fault"],
     },
     "C02": {
-        "claim": "hand-assembled cyclic and aliasing pointer graphs (through struct fields, composite-list elements and pointer-list elements) are read by 1-4 concurrent readers with a schedule point before every atomic operation of the read budget; (a) the true size of everything handed out never exceeds T, (b) per-object charges calibrated in a sequential prelude are at least the true size and the concurrent history is linearizable (porcupine) against the sequential budget, including the final value of the limit, (c) no dereference succeeds deeper than D, (d) deep copy, Canonicalize, Equal and CopyFrom on a cyclic chain consume budget bounded by D rather than T",
+        "claim": "hand-assembled cyclic and aliasing pointer graphs (through struct fields, composite-list elements and pointer-list elements) are read by 1-4 concurrent readers with a schedule point before every atomic operation of the read budget; (a) the true size of everything handed out never exceeds T, (b) per-object charges calibrated in a sequential prelude are at least the true size and the concurrent history is linearizable (porcupine) against the sequential budget, including the final value of the limit, (c) no dereference succeeds deeper than D, (d) deep copy, Canonicalize, Equal and CopyFrom on a cyclic chain consume budget bounded by D rather than T; the graphs contain structs, pointer lists, composite lists (also zero-sized elements and understated pointers) and pointer-free lists (void, bit, byte, 8-byte: Data/Text-like leaves)",
         "engine": "readsim", "level": "exploration",
         "budget": {"quick": 25, "thorough": 600},
         "min_runs": {"quick": 3000},
@@ -173,7 +173,7 @@ CHECKS = {
         "coverage_extra": {"explanation": "exhaustive is false for the batch as a whole: cut points are enumerated exhaustively per stream (see probes.streams_fully_enumerated and probes.cut_points_checked), streams themselves are sampled"},
     },
     "C14": {
-        "claim": "per generated sequence of 1-5 messages written by the real Encoder (packed or not), every cut point of the byte stream (exhaustive up to 1 KiB) and a read error are injected; the real Decoder (with and without buffer reuse, several MaxMessageSize values, all chunkings) must return exactly the complete frames, io.EOF only at a frame boundary and an error anywhere else; hostile headers are spliced in and the allocation of Decode and Unmarshal is bounded with runtime.MemStats; for every frame, MaxMessageSize values from 24 bytes below to 8 bytes above its exact size (header included): fits => decoded unchanged, does not fit => refused, and never more than MaxMessageSize bytes consumed from the reader by one Decode",
+        "claim": "per generated sequence of 1-5 messages written by the real Encoder (packed or not), every cut point of the byte stream (exhaustive up to 1 KiB) and a read error are injected; the real Decoder (with and without buffer reuse, several MaxMessageSize values, all chunkings) must return exactly the complete frames, io.EOF only at a frame boundary and an error anywhere else; hostile headers are spliced in and the allocation of Decode and Unmarshal is bounded with runtime.MemStats; for every frame, MaxMessageSize values from 24 bytes below to 8 bytes above its exact size (header included): fits => decoded unchanged, does not fit => refused, and never more than MaxMessageSize bytes consumed from the reader by one Decode; also limits of 1, 4 and 7 bytes (smaller than any segment table), which no frame fits",
         "engine": "streamsim", "level": "fault_enumeration",
         "budget": {"quick": 20, "thorough": 480},
         "min_runs": {"quick": 15000},
@@ -183,7 +183,7 @@ CHECKS = {
         "coverage_extra": {"explanation": "exhaustive is false for the batch as a whole: cut points are enumerated exhaustively per stream (probes.streams_fully_enumerated), streams are sampled"},
     },
     "C12": {
-        "claim": "seeded search over schedules of 1-4 caller tasks against a real server.Server (every mutex acquisition and channel wake-up is a schedule point) with tape-chosen policies, ack/return timings, cancellations, pipelined calls on unreturned answers and shutdown while calls run; start order, ack gating, the concurrency cap, exactly-once completion with the implementation's own result, pipelined delivery order and shutdown semantics are checked at every event and over the recorded history; in half of the runs the callers use the Server directly and another task calls Server.Shutdown at an arbitrary point (calls queued behind the admission gate or waiting for a slot): Shutdown returns only after every running implementation returned, the user's Shutdown ran exactly once, nothing starts afterwards; a call that was never delivered must have been cancelled or shut out",
+        "claim": "seeded search over schedules of 1-4 caller tasks against a real server.Server (every mutex acquisition and channel wake-up is a schedule point) with tape-chosen policies, ack/return timings, cancellations, pipelined calls on unreturned answers and shutdown while calls run; start order, ack gating, the concurrency cap, exactly-once completion with the implementation's own result, pipelined delivery order and shutdown semantics are checked at every event and over the recorded history; in half of the runs the callers use the Server directly and another task calls Server.Shutdown at an arbitrary point (calls queued behind the admission gate or waiting for a slot): Shutdown returns only after every running implementation returned, the user's Shutdown ran exactly once, nothing starts afterwards; a call that was never delivered must have been cancelled or shut out; one call in four carries its capability in pointer field 257 and is pipelined on through that field (two-byte transform index through the answer queue)",
         "engine": "srvsim", "level": "exploration",
         "budget": {"quick": 25, "thorough": 600},
         "min_runs": {"quick": 50000},
@@ -199,7 +199,7 @@ CHECKS = {
         "faults": ["ctx_precancelled"],
     },
     "C10": {
-        "claim": "seeded search over schedules (every lock acquisition in capability.go is a schedule point) and operation sequences on shared clients, weak references and client promises, including one Client used by two tasks at once, checked against a reference-count / resolution-chain model at every hook event and at the end of the run",
+        "claim": "seeded search over schedules (every lock acquisition in capability.go is a schedule point) and operation sequences on shared clients, weak references and client promises, including one Client used by two tasks at once, checked against a reference-count / resolution-chain model at every hook event and at the end of the run; Brand (reached through Client.State) counts as an access in progress across a schedule point, like Send and Recv",
         "engine": "capsim", "level": "exploration",
         "budget": {"quick": 25, "thorough": 600},
         "min_runs": {"quick": 100000},
